@@ -13,7 +13,7 @@ import itertools
 import json
 import random
 
-from .. import lexer, renderkit, tlc
+from .. import lexer, renderkit, tlc, vt_conf
 from ..core import Report
 from ..env import stubs
 
@@ -154,6 +154,8 @@ def main(rep: Report, replay: dict | None) -> None:
         "distinct_nontrivial = distinct normalised token streams containing >= 1 control sequence "
         "x start positions (each validated by TLC)"
     )
+    if not replay:
+        vt_conf.check(rep)  # the lexer is bound to VT.tla before anything it lexes is judged
     # design-level model
     res = tlc.run("MC_RenderShape", "MC_RenderShape.cfg", workers=16, timeout=600, coverage=True)
     if res.violated:
